@@ -31,7 +31,7 @@ META = {
             "k2_repaired / k3_repaired evaluate the former counterexamples. What `interpret` means for the integer types is "
             "stated independently of it (Wire.unsignedValue / signedValue) and proved: unsigned_field_value / "
             "signed_field_value (a field of k <= n <= 8 octets, k the type's size, is reported with the value of ALL n "
-            "octets - before fix 606ce73 Interpret read the leading k octets, FLOW_SAMPLER_ID in 2 octets = 7 gave 0: F24, "
+            "octets - before fix 6666d44 Interpret read the leading k octets, FLOW_SAMPLER_ID in 2 octets = 7 gave 0: F24, "
             "f24_repaired), integer_field_kind, field_raw (shorter than the type, or an integer of more than 8 octets: the "
             "octets). Further: "
             "flowset length < 65536, non-empty flowsets, a template record has >= 1 field, the data flowset's template is "
